@@ -245,6 +245,42 @@ def run(tier, seed, rng):
         failures.append(dict(kind='oracle', sig='context-prefix-move0', what='a packet with a move landing on its first byte parses differently at offset 0 and behind a prefix',
                              classes=pktprops.class_source(bgroups, r['group']), cls='K0', raw=b['raw'].hex(), raw_with_context=r['raw'].hex(),
                              offset=r['offset'], observed=view(r['outcome']), required=view(want)))
+    # ---- positions declared in UNUSUAL ORDERS or through wrappers the generator never writes (a position given before .when(), before
+    # .repeated(), packet-relative alignment of optional / repeated fields, of a referenced packet at an odd offset): whatever the
+    # declaration means, it must mean the same at every start offset -- unpack(pre + raw + suf, len(pre)) against unpack(raw)
+    osrc = ("class ORec(Packet):\n    kind = Int(1)\n    value = Int(2).aligned(4, 'innermost-pkt').when(kind)\n    tail = Int(1)\n"
+            "class ORec2(Packet):\n    kind = Int(1)\n    value = Int(2).when(kind).aligned(4, 'innermost-pkt')\n    tail = Int(1)\n"
+            "class OAt(Packet):\n    kind = Int(1)\n    value = Int(2).at(4).when(kind)\n    tail = Int(1)\n"
+            "class OSh(Packet):\n    kind = Int(1)\n    value = Int(2).shift(2).when(kind)\n    tail = Int(1)\n"
+            "class OSeq(Packet):\n    n = Int(1)\n    xs = Int(1).aligned(4, 'innermost-pkt').repeated(n)\n    tail = Int(1)\n"
+            "class OSeq2(Packet):\n    n = Int(1)\n    xs = Int(1).repeated(n).aligned(4, 'innermost-pkt')\n    tail = Int(1)\n"
+            "class ORefAl(Packet):\n    tag = Int(1)\n    rec = Ref(ORec).aligned(2, 'innermost-pkt')\n    t = Int(1)\n"
+            "class OEm(Packet):\n    a = Int(1)\n    e = Em().aligned(4, 'innermost-pkt').when(a)\n    b = Int(1)\n")
+    for k in ('ORec', 'ORec2', 'OAt', 'OSh', 'OSeq', 'OSeq2', 'OEm'):
+        osrc += f"class F{k}(Packet):\n    tag = Int(1)\n    rec = Ref({k})\n    t = Int(1)\n"
+    obase = bytes([0x01, 0xAA, 0xBB, 0xCC, 0x00, 0x07, 0x09, 0x55, 0x66, 0x77, 0x02, 0x03, 0x04, 0x05, 0x06, 0x08])
+    ocases, ometa = [], []
+    for cls in ['ORec', 'ORec2', 'OAt', 'OSh', 'OSeq', 'OSeq2', 'ORefAl', 'OEm'] + ['F' + k for k in ('ORec', 'ORec2', 'OAt', 'OSh', 'OSeq', 'OSeq2', 'OEm')]:
+        for first in (0x01, 0x00, 0x02):
+            raw = bytes([first]) + obase[1:] if not cls.startswith('F') else bytes([0x0b, first]) + obase[1:]
+            for pre in range(0, 8):
+                for suf in (b'', b'\x99\x98'):
+                    ocases.append(dict(cls=cls, op='unpack_end', raw=(b'p' * pre + raw + suf).hex(), offset=pre)); ometa.append((cls, first, pre, suf))
+    ores = run_impl(os.path.join(VERIF, 'harness', 'impl_pkt.py'), dict(header=decl.HEADER_PY, blocks=[dict(name='orders', src=osrc)], modname='c14o', cases=ocases))
+    dist['unusual_order_position_pairs'] = len(ocases)
+    obase_out = {}
+    for (cls, first, pre, suf), c, o in zip(ometa, ocases, ores['outcomes']):
+        norm = dict(o)
+        if isinstance(norm.get('end'), int):
+            norm['end'] -= pre
+        if 'stack' in norm:
+            norm['stack'] = [[x[0] - pre if isinstance(x[0], int) else x[0]] + list(x[1:]) for x in norm['stack']]
+            norm.pop('msg', None)
+        if pre == 0 and suf == b'':
+            obase_out[(cls, first)] = (norm, c)
+        elif 'ok' in obase_out[(cls, first)][0] and norm != obase_out[(cls, first)][0]:
+            failures.append(dict(kind='oracle', sig='context-unusual-order', what=f"unpack behind a prefix of {pre} bytes (and {len(suf)} bytes after) differs from unpack of the packet alone, offsets shifted",
+                                 classes=osrc, cls=cls, raw=obase_out[(cls, first)][1]['raw'], raw_with_context=c['raw'], offset=pre, observed=str(norm)[:400], required=str(obase_out[(cls, first)][0])[:400]))
     failures += pktprops.public_api_failures(groups, records)[:20]
     dist['regex_zoo_pairs'] = sum(1 for r in zrecs if r['offset'] != 0)
     for b, r, want in zfail[:20]:
